@@ -352,7 +352,7 @@ pub fn gen_op(r: &mut Rng, kind: &str, regs: &[MVal], cfg: &OpGenCfg) -> Op {
         "build_array" => {
             let mut items: Vec<usize> = (0..r.urange(0, 4)).map(|_| any(r)).collect();
             // a wide call now and then (small registers only, so that the result stays small)
-            let small: Vec<usize> = (0..n).filter(|i| regs[*i].node_count() <= 50).collect();
+            let small: Vec<usize> = (0..n).filter(|i| regs[*i].node_count() <= 50 && regs[*i].approx_bytes() <= 4096).collect();
             if !small.is_empty() && r.chance(1, 25) {
                 let w = *r.pick(&[16usize, 17, 64, 255, 256, 257, 300]);
                 items = (0..w).map(|_| *r.pick(&small)).collect();
@@ -361,7 +361,7 @@ pub fn gen_op(r: &mut Rng, kind: &str, regs: &[MVal], cfg: &OpGenCfg) -> Op {
         }
         "build_object" => {
             let mut keys: Vec<String> = (0..r.urange(0, 4)).map(|_| gen::gen_key(r, cfg.vals)).collect();
-            let small: Vec<usize> = (0..n).filter(|i| regs[*i].node_count() <= 50).collect();
+            let small: Vec<usize> = (0..n).filter(|i| regs[*i].node_count() <= 50 && regs[*i].approx_bytes() <= 4096).collect();
             let wide = !small.is_empty() && r.chance(1, 25);
             if wide {
                 keys.extend((0..*r.pick(&[16usize, 17, 64, 255, 256, 257, 300])).map(|i| format!("k{i:03}")));
